@@ -36,21 +36,38 @@ fn programs(tier: &str, seed: u64) -> Vec<Program> {
     } else {
         (&["add", "sub", "mul", "div", "muladd", "select"], &["add", "sub", "mul", "div"])
     };
-    enumerate_small(1, k1_kinds, &mut |p| {
-        out.push(p);
-        true
-    });
     let mut all2 = Vec::new();
-    enumerate_small(2, k2_kinds, &mut |p| {
-        all2.push(p);
+    for with_private in [false, true] {
+        enumerate_small(1, k1_kinds, with_private, &mut |p| {
+            out.push(p);
+            true
+        });
+        enumerate_small(2, k2_kinds, with_private, &mut |p| {
+            all2.push(p);
+            true
+        });
+    }
+    // k=3 with a private input, restricted to the kinds that make backwards ops (sub/div)
+    // and products/sums (fusion): sampled
+    let mut all3 = Vec::new();
+    enumerate_small(3, &["sub", "mul", "add"], true, &mut |p| {
+        all3.push(p);
         true
     });
+    {
+        let mut st = seed ^ 0x5EED3;
+        let want = if tier == "thorough" { 6000 } else { 600 };
+        for _ in 0..want.min(all3.len()) {
+            let i = (splitmix(&mut st) % all3.len() as u64) as usize;
+            out.push(all3[i].clone());
+        }
+    }
     if tier == "thorough" {
         out.extend(all2);
     } else {
         // quick: deterministic sample of the k=2 space (seeded)
         let mut st = seed ^ 0xC0FFEE;
-        let want = 1200usize;
+        let want = 1500usize;
         let n = all2.len();
         for _ in 0..want.min(n) {
             let i = (splitmix(&mut st) % n as u64) as usize;
@@ -63,6 +80,10 @@ fn programs(tier: &str, seed: u64) -> Vec<Program> {
     for i in 0..n_rand {
         let max_ops = if i % 4 == 0 { 12 } else { 6 };
         out.push(gen_random(&mut rng, max_ops, true));
+    }
+    let n_fus = if tier == "thorough" { 8000 } else { 1500 };
+    for i in 0..n_fus {
+        out.push(if i % 2 == 0 { gen_fusion_family(&mut rng) } else { gen_fusion_dag(&mut rng) });
     }
     out
 }
@@ -100,6 +121,8 @@ fn fixed_programs() -> Vec<Program> {
         p(vec![Public, Private, Public, Div(1, 0), Add(1, 2), Mul(3, 4)]),
         // product aliased to a later sum, then used once in another sum
         p(vec![Public, Public, Public, Public, Mul(0, 1), Add(2, 3), Connect(4, 5), Add(4, 0)]),
+        // chained fusion depending on a rejected fusion (addend defined after the first product)
+        p(vec![Public, Public, Public, Public, Public, Public, Mul(0, 1), Mul(2, 3), Add(4, 5), Add(6, 8), Add(7, 9)]),
         // sub encodings sharing operands
         p(vec![Public, Public, Sub(0, 1), Add(2, 1), Connect(3, 0)]),
         p(vec![Public, Public, Sub(0, 1), Sub(0, 1), Add(1, 2)]),
@@ -397,6 +420,10 @@ fn main() {
         }
         if !distinct.insert(prog.clone()) {
             sh.bump("programs_duplicate_skipped");
+            continue;
+        }
+        if sh.violations.len() >= 25 {
+            sh.bump("programs_skipped_after_25_violations");
             continue;
         }
         sh.bump("programs");
